@@ -259,3 +259,64 @@ Proof.
   - cbn [fst snd sl_st]. split; [reflexivity|exact Hok].
   - split; [exact T|exact A].
 Qed.
+
+(* ---------------------------------------------------------------- the PATH of a dispatched train
+   The path the final walk() runs on (and every path an intermediate step ran on) was built from PathTpc::new by the
+   successive extend_path calls and nothing else, so every statement about extend_many (C02 / C13: the enforced profile
+   is the tightest posted restriction; C06: geometry equals the network's) applies to it. *)
+Lemma extend_many_snoc (net : list LinkR) : forall parts (p q r : PathR) links,
+  extend_many net p parts = Ok q -> extend net q links = Ok r -> extend_many net p (parts ++ [links]) = Ok r.
+Proof.
+  induction parts as [|a t IH]; intros p q r links H1 H2; cbn [extend_many app] in *.
+  - inversion H1; subst q. rewrite H2. reflexivity.
+  - apply bind_ok in H1. destruct H1 as (p1 & Ha & Ht). rewrite Ha. cbn [bind]. eapply IH; eauto.
+Qed.
+
+Definition built (net : list LinkR) (tp : TPR) (p : PathR) : Prop := exists parts, extend_many net (new_path tp) parts = Ok p.
+
+Lemma tw_extend_built fuel_bp (net : list LinkR) tp rp links (w w1 : TimedSim (F:=R)) :
+  built net tp (tw_path w) -> tw_extend fuel_bp net rp links w = Ok w1 -> built net tp (tw_path w1).
+Proof.
+  intros (parts & Hb) H. unfold tw_extend in H. apply bind_ok in H. destruct H as (p & He & H).
+  apply bind_ok in H. destruct H as ([pts idx] & _ & H). inversion H; subst w1; clear H. cbn [tw_path].
+  exists (parts ++ [links]). eapply extend_many_snoc; eauto.
+Qed.
+
+Lemma tw_outer_built fuel_bp fuel_steps (net : list LinkR) tp rp fmax tl : forall fuel idx (w w' : TimedSim (F:=R)),
+  built net tp (tw_path w) -> tw_outer fuel fuel_bp fuel_steps net rp fmax tl idx w = Ok w' -> built net tp (tw_path w').
+Proof.
+  induction fuel as [|f IH]; intros idx w w' Hb H; cbn [tw_outer] in H.
+  - destruct (Nat.eqb idx (length tl - 1)); [|discriminate]. inversion H; subst; exact Hb.
+  - destruct (Nat.eqb idx (length tl - 1)); [inversion H; subst; exact Hb|]. cbv zeta in H.
+    apply bind_ok in H. destruct H as (w1 & He & H). apply bind_ok in H. destruct H as (x1 & Hs & H).
+    apply IH in H; [exact H|]. cbn [tw_path]. eapply tw_extend_built; eauto.
+Qed.
+
+Theorem sl_timed_walk_path fuel_bp fuel_steps (net : list LinkR) (tp : TPR) tl rp fmax fb st cache (con : ConsistR) x' :
+  sl_timed_walk fuel_bp fuel_steps net tp tl rp fmax fb st cache con = Ok x' ->
+  exists (w : TimedSim (F:=R)) parts,
+    extend_many net (new_path tp) parts = Ok (tw_path w) /\
+    sl_full_walk fuel_steps (env_of_path (tw_path w) rp) (tw_pts w) (path_offset_end (tw_path w)) fmax (tw_x w) = Ok x'.
+Proof.
+  unfold sl_timed_walk. destruct tl as [|t0 tr]; [discriminate|]. intros H.
+  apply bind_ok in H. destruct H as (w & Ho & Hw).
+  apply (tw_outer_built _ _ net tp) in Ho; [|exists []; reflexivity]. destruct Ho as (parts & Hp).
+  exists w, parts. split; assumption.
+Qed.
+
+(* C02 / C13 for a dispatched train: on the path its walk() runs on, the enforced limit at every position is at most
+   the train's own maximum and at most every posted restriction covering the position, and it is one of them *)
+Theorem sl_timed_walk_profile fuel_bp fuel_steps (net : list LinkR) (tp : TPR) tl rp fmax fb st cache (con : ConsistR) x' :
+  sl_timed_walk fuel_bp fuel_steps net tp tl rp fmax fb st cache con = Ok x' ->
+  exists (w : TimedSim (F:=R)) parts,
+    extend_many net (new_path tp) parts = Ok (tw_path w) /\
+    sl_full_walk fuel_steps (env_of_path (tw_path w) rp) (tw_pts w) (path_offset_end (tw_path w)) fmax (tw_x w) = Ok x' /\
+    (route_ok net tp (concat parts) -> forall x, 0 <= x ->
+       let P := eval_speed (p_speed_points (tw_path w)) x in
+       let sets := route_sets net tp (concat parts) in
+       P <= tp_speed_max tp /\ (forall v, posted tp 0 sets x v -> P <= v) /\ (P = tp_speed_max tp \/ posted tp 0 sets x P)).
+Proof.
+  intros H. destruct (sl_timed_walk_path _ _ _ _ _ _ _ _ _ _ _ _ H) as (w & parts & Hp & Hw).
+  exists w, parts. split; [exact Hp|]. split; [exact Hw|].
+  intros Hr x Hx. exact (path_profile_is_min net tp parts (tw_path w) x Hp Hr Hx).
+Qed.
